@@ -523,6 +523,8 @@ fn main() {
         "bnd_c20" => bounded::bnd_c20(),
         "bnd_doc" => bounded::bnd_doc(),
         "c03_elements" => bounded::c03_elements(),
+        "c06_positions" => bounded::c06_positions(),
+        "c07_compose" => bounded::c07_compose(),
         "c14_elements" => bounded::c14_elements(),
         "c13_minwrap" => bounded::c13_minwrap(),
         "bnd_c08" => bounded::bnd_c08(),
